@@ -208,6 +208,7 @@ class Engine:
         self.env_vars = {}
         self.params = {}
         self.fnstack = []
+        self.preset = {}
         self.havoc_leaves = []
         self.json_docs = []
         self.region_defs = {}
@@ -1342,8 +1343,13 @@ class Engine:
                 l64, h64, c64 = to_bv(lo, 64), to_bv(hi, 64), to_bv(x.cap, 64)
                 self.panic(st, sb(z3.Not(z3.And(z3.ULE(l64, h64), z3.ULE(h64, c64)))), 'slice-bounds')
                 return SliceV(x.obj, si(to_bv(x.off, 64) + l64), si(h64 - l64), si(c64 - l64), False)
-            if is_sym(lo) or is_sym(hi):
-                raise Unsupported('symbolic reslice')
+            if is_sym(lo):
+                raise Unsupported('reslice with a symbolic low bound')
+            if is_sym(hi):
+                # x[lo:hi] with a symbolic high bound: same backing array, symbolic length
+                h64 = to_bv(hi, 64)
+                self.panic(st, sb(z3.Not(z3.And(z3.ULE(bvc(lo, 64), h64), z3.ULE(h64, bvc(x.cap, 64))))), 'slice-bounds')
+                return SliceV(x.obj, x.off + lo, si(h64 - lo), x.cap - lo, x.nil if lo == 0 else False)
             return SliceV(x.obj, x.off + lo, hi - lo, x.cap - lo)
         raise Unsupported('slice')
 
@@ -1469,17 +1475,18 @@ class Engine:
         for g, o in m.alts:
             if o is None:
                 continue
-            ents, matched = [], False
+            # invariant: no two present entries have equal keys. A present entry with an equal key is overwritten;
+            # otherwise a new entry is appended (absent slots are never revived: with symbolic keys several slots
+            # could match and would all become present)
+            ents, anypresent = [], False
             for k, pg, ov in st.heap[o].entries:
-                eq = self.key_eq(k, key)
-                hit = sb(And(g, eq))
+                hit = sb(And(g, pg, self.key_eq(k, key)))
                 if hit is False:
                     ents.append((k, pg, ov))
                     continue
-                # a present entry with equal key is overwritten; an absent slot with equal key is revived
-                ents.append((k, sb(Or(pg, hit)), self.merge_val(hit, v, ov, et, st.heap, st.heap, st.heap)))
-                matched = Or(matched, eq)
-            newg = sb(And(g, Not(matched)))
+                ents.append((k, pg, self.merge_val(hit, v, ov, et, st.heap, st.heap, st.heap)))
+                anypresent = Or(anypresent, hit)
+            newg = sb(And(g, Not(anypresent)))
             if newg is not False:
                 ents.append((key, newg, v))
             st.heap[o] = MapObj(ents)
@@ -1540,6 +1547,8 @@ def nondet(e, st, args, ins, mk):
     n = e.nondet_count.get(name, 0)
     e.nondet_count[name] = n + 1
     full = '%s#%d' % (name, n)
+    if full in e.preset:
+        return e.preset[full]        # debugging aid: concrete value for a nondet input
     v = mk(full)
     e.inputs[full] = v
     return v
@@ -1617,6 +1626,53 @@ def i_json_marshal(e, st, a, i):
     e.json_docs.append((st.pc, a[0]))
     obj = e.new_obj(st, (ProtoCell(((True, 'json', a[0]),)),), None)
     return (SliceV(obj, 0, 1, 1, False), e.zero(elems[1]))
+
+
+def i_json_value(e, st, a, i):
+    """verifrt.JSONValue(doc): the value remembered by the json.Marshal intrinsic"""
+    b = a[0]
+    cell = st.heap[b.obj][b.off] if b.obj is not None else None
+    if not isinstance(cell, ProtoCell):
+        raise Unsupported('JSONValue of bytes that do not come from json.Marshal')
+    (g, dt, v), = cell.alts
+    return v
+
+
+REFLECT_KIND = {'bool': 1, 'int': 2, 'int8': 3, 'int16': 4, 'int32': 5, 'int64': 6, 'uint': 7, 'uint8': 8, 'uint16': 9,
+                'uint32': 10, 'uint64': 11, 'uintptr': 12, 'float32': 13, 'float64': 14, 'string': 24}
+
+
+def _reflect_alts(e, rv):
+    if not (isinstance(rv, Opaque) and isinstance(rv.tag, tuple) and rv.tag[0] == 'reflect'):
+        raise Unsupported('reflect.Value receiver')
+    return rv.tag[1].alts
+
+
+def i_reflect_kind(e, st, a, i):
+    res = 0
+    for g, dt, v in reversed(_reflect_alts(e, a[0])):
+        if dt is None:
+            k = 0
+        else:
+            _, d = e.under(dt)
+            kk = d.get('kind')
+            k = REFLECT_KIND.get(d.get('basic'), {'map': 21, 'slice': 23, 'ptr': 22, 'struct': 25, 'interface': 20}.get(kk, 26))
+        res = ite_int(g, k, res, 64, False)
+    return res
+
+
+def _reflect_scalar(e, st, rv, want, zero, t):
+    res = zero
+    for g, dt, v in reversed(_reflect_alts(e, rv)):
+        if dt is None:
+            continue
+        if e.kind(dt) == want:
+            if want == 'int':
+                bits, signed = e.int_info(dt)
+                if is_sym(v) and bits < 64:
+                    v = z3.SignExt(64 - bits, v) if signed else z3.ZeroExt(64 - bits, v)
+            res = e.merge_val(g, v, res, t, st.heap, st.heap, st.heap)
+    return res
 
 
 def i_proto_marshal(e, st, a, i):
@@ -2172,6 +2228,12 @@ INTRINSICS = {
     'github.com/onosproject/onos-lib-go/pkg/uri.WithOpaque': lambda e, st, a, i: None,
     'github.com/onosproject/onos-lib-go/pkg/uri.NewURI': lambda e, st, a, i: NILPTR,
     '(*github.com/onosproject/onos-lib-go/pkg/uri.URI).String': lambda e, st, a, i: b'uuid:1',
+    'reflect.ValueOf': lambda e, st, a, i: Opaque(('reflect', a[0])),
+    '(reflect.Value).Kind': i_reflect_kind,
+    '(reflect.Value).Int': lambda e, st, a, i: _reflect_scalar(e, st, a[0], 'int', 0, 'int64'),
+    '(reflect.Value).Uint': lambda e, st, a, i: _reflect_scalar(e, st, a[0], 'int', 0, 'uint64'),
+    '(reflect.Value).Bool': lambda e, st, a, i: _reflect_scalar(e, st, a[0], 'bool', False, 'bool'),
+    '(reflect.Value).String': lambda e, st, a, i: _reflect_scalar(e, st, a[0], 'string', b'<non-string Value>', 'string'),
     'encoding/json.MarshalIndent': i_json_marshal,
     'encoding/json.Marshal': i_json_marshal,
     'github.com/gogo/protobuf/proto.Marshal': i_proto_marshal,
@@ -2221,6 +2283,7 @@ INTRINSICS = {
     'github.com/onosproject/onos-config/internal/verifrt.Fork': i_fork,
     'github.com/onosproject/onos-config/internal/verifrt.Region': i_region,
     'github.com/onosproject/onos-config/internal/verifrt.HavocState': i_havoc_state,
+    'github.com/onosproject/onos-config/internal/verifrt.JSONValue': i_json_value,
     'github.com/onosproject/onos-config/internal/verifrt.NondetBytesLen': i_nondet_bytes_len,
     'github.com/onosproject/onos-config/internal/verifrt.Symbolic': lambda e, st, a, i: True,
     'github.com/onosproject/onos-config/internal/verifrt.NondetInt32': lambda e, st, a, i: nondet_signed(e, st, a, i, 32),
